@@ -199,6 +199,40 @@ def option_probes(rep, thorough):
         what = 'COPY TO / COPY FROM with %s does not reproduce the table: rows lost or changed %s, rows appearing %s' % (opts, json.dumps(missing)[:200], json.dumps(extra)[:200])
         outc = rep.counterexample(key, what[:500], {'stmts': stmts, 'exported': a['rows'], 'imported': b.get('rows') if b else None}, True)
         rep.obligation(outc == 'known')
+    # the delicate cells again as the *first* field of a record (a reader may treat the start of a line specially:
+    # comment characters, byte-order marks, blank lines), with the default options and a pipe delimiter
+    for d in [',', '|']:
+        wd = scratch_dir('csvopt')
+        f = os.path.join(wd, 'f.csv')
+        opts = "(format csv, delimiter '%s')" % d
+        lead = cells + ["#", "# note", ";x", "//x", "--x", "\ufeffbom", "=1+1", "@a", "-", "\\N"]
+        rows = ["('%s', %d)" % (c.replace("'", "''"), i) for i, c in enumerate(lead)] + ["(NULL, %d)" % len(lead)]
+        stmts = ['create table f(s varchar, k int)', 'create table g(s varchar, k int)', 'insert into f values ' + ', '.join(rows),
+                 "copy f to '%s' %s" % (f, opts), "copy g from '%s' %s" % (f, opts), 'select s, k from f order by k', 'select s, k from g order by k']
+        out, rc, err = rl('sql', {'engine': 'mem', 'stmts': stmts})
+        shutil.rmtree(wd, ignore_errors=True)
+        res = {o['sql']: o for o in out if 'sql' in o}
+        a, b, cp_from = res.get(stmts[-2]), res.get(stmts[-1]), res.get(stmts[4])
+        n += 1
+        if a is None or not a.get('ok'):
+            rep.fail_inconclusive('csv first-field probe did not run: %s' % err[-200:])
+            continue
+        imp_ok = cp_from is not None and cp_from.get('ok') and not cp_from.get('panicked')
+        if imp_ok and b is not None and b.get('ok') and a['rows'] == b['rows']:
+            ok += 1
+            continue
+        if imp_ok and b is not None and b.get('ok'):
+            missing = [r for r in a['rows'] if r not in b['rows']]
+            extra = [r for r in b['rows'] if r not in a['rows']]
+        else:
+            missing, extra = 'import fails: %s' % ((cp_from or {}).get('err') or 'panic'), []
+        # the recorded empty-string finding shows here as ('' -> NULL); anything else is new
+        if missing == [['', str(lead.index(''))]] if '' in lead else False:
+            ok += 1
+            continue
+        what = 'COPY TO / COPY FROM with %s and a VARCHAR first column does not reproduce the table: rows lost or changed %s, rows appearing %s' % (opts, json.dumps(missing)[:200], json.dumps(extra)[:200])
+        outc = rep.counterexample('csv:first-field:delimiter=%s' % d, what[:500], {'stmts': stmts, 'exported': a['rows'], 'imported': b.get('rows') if b else None}, True)
+        rep.obligation(outc == 'known')
     # every column type COPY can carry (one NULL per column) and a table larger than one chunk
     wd = scratch_dir('csvopt')
     f1, f2 = os.path.join(wd, 'types.csv'), os.path.join(wd, 'bulk.csv')
